@@ -1,0 +1,45 @@
+//go:build verif
+
+package server
+
+import (
+	"net"
+	"time"
+)
+
+// Simulation hooks (build tag "verif"). Each hook is a package variable that a
+// simulation harness may set; while a variable is nil the hook does nothing.
+
+var (
+	verifNewLockHook      func(opts *Options) rwlocker
+	verifWrapListenerHook func(s *Server, ln net.Listener) net.Listener
+	verifDialRESPHook     func(address string, timeout time.Duration) (net.Conn, error, bool)
+	verifPointHook        func(s *Server, name string)
+)
+
+func verifNewLock(opts *Options) rwlocker {
+	if verifNewLockHook != nil {
+		return verifNewLockHook(opts)
+	}
+	return nil
+}
+
+func verifWrapListener(s *Server, ln net.Listener) net.Listener {
+	if verifWrapListenerHook != nil {
+		return verifWrapListenerHook(s, ln)
+	}
+	return ln
+}
+
+func verifDialRESP(address string, timeout time.Duration) (net.Conn, error, bool) {
+	if verifDialRESPHook != nil {
+		return verifDialRESPHook(address, timeout)
+	}
+	return nil, nil, false
+}
+
+func verifPoint(s *Server, name string) {
+	if verifPointHook != nil {
+		verifPointHook(s, name)
+	}
+}
